@@ -38,20 +38,20 @@ const MAX_ABORTS: u64 = 40;
 // ---------------------------------------------------------------------------------------------
 struct Spec {
     name: String,
-    /// rough cost of one case in microseconds, only used to order the shards
+    /// estimated cost of one case in microseconds (from instruction counts); sizes the shards
     cost: u64,
     build: Box<dyn Fn() -> Box<dyn Family> + Send + Sync>,
 }
 
-fn seq(name: String, alphabet: &'static [&'static str], extra: &'static [&'static str], max_len: u32, sep: &'static str, pos: (&'static str, &'static str, &'static str, u64), shard: u64) -> Spec {
+fn seq(name: String, alphabet: &'static [&'static str], extra: &'static [&'static str], max_len: u32, sep: &'static str, pos: (&'static str, &'static str, &'static str, u64), cost: u64) -> Spec {
     let n = name.clone();
     Spec {
         name,
-        cost: 250,
+        cost,
         build: Box::new(move || {
             let mut a: Vec<&'static str> = alphabet.to_vec();
             a.extend_from_slice(extra);
-            Box::new(SeqFam { name: n.clone(), alphabet: a, min_len: 0, max_len, sep, prefix: pos.1, suffix: pos.2, route: pos.3, shard })
+            Box::new(SeqFam { name: n.clone(), alphabet: a, min_len: 0, max_len, sep, prefix: pos.1, suffix: pos.2, route: pos.3, shard: 0 })
         }),
     }
 }
@@ -60,24 +60,58 @@ fn is_est(name: &str) -> bool {
     name.starts_with("est-") || name.contains("policy-set") || name.starts_with("ffi-authorization") || name.starts_with("ffi-validation")
 }
 
-fn nest_family() -> ListFam {
+/// depths of the nesting generators: all of 1..=48 (thorough) or a cut of 16 depths (quick)
+fn nest_depths(tier: Tier) -> Vec<usize> {
+    match tier {
+        Tier::Thorough => (1..=MAX_DEPTH).collect(),
+        Tier::Quick => vec![1, 2, 3, 4, 5, 6, 8, 12, 16, 20, 24, 32, 40, 46, 47, 48],
+    }
+}
+
+const FULL_TEXT: u64 = R_POLICY_FFI | R_CSCHEMA_FFI;
+
+fn nest_family(tier: Tier) -> ListFam {
     let mut items: Vec<(Vec<u8>, u64)> = vec![];
-    for d in 1..=MAX_DEPTH {
+    for d in nest_depths(tier) {
         for (_, e) in nested_exprs(d) {
             items.push((format!("{POLICY_HEAD} when {{ {e} }};").into_bytes(), R_POLICY));
             items.push((e.into_bytes(), R_EXPR | R_NAME));
         }
         for (_, p) in nested_policies(d) {
-            items.push((p.into_bytes(), R_POLICY));
+            items.push((p.into_bytes(), R_POLICY | R_POLICY_FFI));
         }
         for (_, s) in nested_schemas(d) {
-            items.push((s.into_bytes(), R_CSCHEMA));
+            items.push((s.into_bytes(), R_CSCHEMA | R_CSCHEMA_FFI));
         }
         for (_, j, r) in nested_json(d) {
             items.push((j.into_bytes(), r | R_FILE));
         }
     }
-    ListFam { name: "nest".into(), items, shard: 150 }
+    ListFam { name: "nest".into(), items, shard: 0 }
+}
+
+/// JSON seeds whose pairs of mutations are swept in the thorough tier (the FFI call documents
+/// and the policy-set document embed the same sub-documents and are left to single mutations)
+fn pairs_for(name: &str) -> bool {
+    ["est-policy", "est-template", "schema-json", "entities-json", "entity-json", "context-json", "euid-json", "ffi-policy-set", "ffi-formatting-call", "ffi-context-parsing-call", "ffi-scope-variables-call"].contains(&name)
+}
+
+/// substitution alphabet of a seed document, by tier: None = no substitution family
+fn subst_alphabet(tier: Tier, seed: &Seed) -> Option<Vec<u8>> {
+    let all: Vec<u8> = (0..=255u8).collect();
+    match (tier, seed.kind.as_str()) {
+        (Tier::Thorough, "text") | (Tier::Thorough, "proto") => Some(all),
+        (Tier::Thorough, _) => Some(if seed.bytes.len() <= 1300 { BYTE_ALPHABET_40.to_vec() } else { BYTE_ALPHABET_JSON_S.to_vec() }),
+        (Tier::Quick, "text") => Some(BYTE_ALPHABET_TEXT_Q.to_vec()),
+        (Tier::Quick, "proto") => Some(byte_alphabet_proto_q()),
+        (Tier::Quick, _) => {
+            if seed.bytes.len() <= 700 {
+                Some(BYTE_ALPHABET_JSON_S.to_vec())
+            } else {
+                None
+            }
+        }
+    }
 }
 
 fn specs(tier: Tier, seeds: &std::sync::Arc<Vec<Seed>>) -> Vec<Spec> {
@@ -85,67 +119,74 @@ fn specs(tier: Tier, seeds: &std::sync::Arc<Vec<Seed>>) -> Vec<Spec> {
     let mut v: Vec<Spec> = vec![];
     let tok_len = tier.pick(3, 4);
     let wide_len = tier.pick(2, 3);
-    let esc_len = tier.pick(4, 5);
-    let big = tier.pick(4000, 20000);
+    let esc_len = tier.pick(3, 5);
     for pos in policy_positions() {
-        v.push(seq(format!("tok-policy:{}", pos.0), POLICY_TOKENS, &[], tok_len, " ", pos, big));
-        if ["when", "top", "scope-all"].contains(&pos.0) {
-            v.push(seq(format!("tok-policy-wide:{}", pos.0), POLICY_TOKENS_WIDE, POLICY_TOKENS_WIDE_EXTRA, wide_len, " ", pos, big));
-        }
+        v.push(seq(format!("tok-policy:{}", pos.0), POLICY_TOKENS, &[], tok_len, " ", pos, if pos.0 == "top" { 2500 } else { 1500 }));
+    }
+    for pos in policy_positions_wide() {
+        v.push(seq(format!("tok-policy-wide:{}", pos.0), POLICY_TOKENS_WIDE, POLICY_TOKENS_WIDE_EXTRA, wide_len, " ", pos, if pos.0 == "top" { 2500 } else { 1500 }));
     }
     for pos in schema_positions() {
-        v.push(seq(format!("tok-schema:{}", pos.0), SCHEMA_TOKENS, &[], tok_len, " ", pos, big));
-        if ["top", "namespace-body", "attr-type"].contains(&pos.0) {
-            v.push(seq(format!("tok-schema-wide:{}", pos.0), SCHEMA_TOKENS_WIDE, &[], wide_len, " ", pos, big));
-        }
+        v.push(seq(format!("tok-schema:{}", pos.0), SCHEMA_TOKENS, &[], tok_len, " ", pos, 600));
+    }
+    for pos in schema_positions_wide() {
+        v.push(seq(format!("tok-schema-wide:{}", pos.0), SCHEMA_TOKENS_WIDE, &[], wide_len, " ", pos, 600));
     }
     for pos in escape_positions() {
-        v.push(seq(format!("escape:{}", pos.0), ESCAPE_CHARS, &[], esc_len, "", pos, big));
+        v.push(seq(format!("escape:{}", pos.0), ESCAPE_CHARS, &[], esc_len, "", pos, 2500));
     }
     v.push(Spec {
         name: "bytes".into(),
-        cost: 4000,
-        build: Box::new(move || Box::new(ListFam { name: "bytes".into(), items: short_bytes(!q).into_iter().map(|b| (b, R_ALL)).collect(), shard: tier.pick(120, 1000) })),
+        cost: 6000,
+        build: Box::new(move || Box::new(ListFam { name: "bytes".into(), items: short_bytes(!q).into_iter().map(|b| (b, R_ALL)).collect(), shard: 0 })),
     });
-    v.push(Spec { name: "nest".into(), cost: 6000, build: Box::new(|| Box::new(nest_family())) });
+    v.push(Spec { name: "nest".into(), cost: 12000, build: Box::new(move || Box::new(nest_family(tier))) });
     {
         let s = seeds.clone();
         v.push(Spec {
             name: "cross".into(),
-            cost: 20000,
-            build: Box::new(move || Box::new(ListFam { name: "cross".into(), items: s.iter().map(|x| (x.bytes.clone(), R_ALL)).collect(), shard: 8 })),
+            cost: 60000,
+            build: Box::new(move || Box::new(ListFam { name: "cross".into(), items: s.iter().map(|x| (x.bytes.clone(), R_ALL)).collect(), shard: 0 })),
         });
     }
     for (i, seed) in seeds.iter().enumerate() {
-        let s = seeds.clone();
-        let full_alphabet = !q || seed.kind == "proto";
-        let name = format!("subst:{}", seed.name);
-        let n = name.clone();
-        v.push(Spec {
-            name,
-            cost: if seed.kind == "text" { 1500 } else { 800 },
-            build: Box::new(move || {
-                let alphabet: Vec<u8> = if full_alphabet { (0..=255u8).collect() } else { BYTE_ALPHABET_40.to_vec() };
-                Box::new(SubstFam { name: n.clone(), doc: s[i].bytes.clone(), alphabet, route: s[i].route | if s[i].kind == "proto" { 0 } else { R_FILE }, shard: 1200 })
-            }),
-        });
+        if let Some(alphabet) = subst_alphabet(tier, seed) {
+            let s = seeds.clone();
+            let name = format!("subst:{}", seed.name);
+            let n = name.clone();
+            // short text seeds also go through the FFI wrappers
+            let extra = match seed.kind.as_str() {
+                "proto" => 0,
+                "text" => R_FILE | if seed.bytes.len() <= 200 { FULL_TEXT } else { 0 },
+                _ => R_FILE,
+            };
+            v.push(Spec {
+                name,
+                cost: match seed.kind.as_str() {
+                    "proto" => 500,
+                    "text" => 5000,
+                    _ => 1000 + 8 * seed.bytes.len() as u64,
+                },
+                build: Box::new(move || Box::new(SubstFam { name: n.clone(), doc: s[i].bytes.clone(), alphabet: alphabet.clone(), route: s[i].route | extra, shard: 0 })),
+            });
+        }
         if seed.kind == "json" {
             let s = seeds.clone();
             let name = format!("json-mut1:{}", seed.name);
             v.push(Spec {
                 name,
-                cost: 900,
+                cost: 2500,
                 build: Box::new(move || {
                     let doc: J = serde_json::from_slice(&s[i].bytes).unwrap_or(J::Null);
-                    Box::new(JsonMutFam::new(&s[i].name, &doc, s[i].route, if is_est(&s[i].name) { EST_KEYS } else { &[] }))
+                    Box::new(JsonMutFam::new(&s[i].name, &doc, s[i].route, if is_est(&s[i].name) { EST_KEYS } else { &[] }, if q { 6 } else { usize::MAX }))
                 }),
             });
-            if !q {
+            if !q && pairs_for(&seed.name) {
                 let s = seeds.clone();
                 let name = format!("json-mut2:{}", seed.name);
                 v.push(Spec {
                     name,
-                    cost: 700,
+                    cost: 2000,
                     build: Box::new(move || {
                         let doc: J = serde_json::from_slice(&s[i].bytes).unwrap_or(J::Null);
                         Box::new(JsonPairFam::new(&s[i].name, &doc, s[i].route))
@@ -166,9 +207,9 @@ struct JsonMutFam {
 }
 
 impl JsonMutFam {
-    fn new(name: &str, doc: &J, route: u64, extra_keys: &[&str]) -> JsonMutFam {
+    fn new(name: &str, doc: &J, route: u64, extra_keys: &[&str], pool_cap: usize) -> JsonMutFam {
         let d = JV::from_serde(doc);
-        let muts = mutations(&d, true, extra_keys);
+        let muts = mutations(&d, true, extra_keys, pool_cap);
         JsonMutFam { name: format!("json-mut1:{name}"), doc: d, muts, route }
     }
 }
@@ -584,6 +625,12 @@ fn parent(tier: Tier) -> i32 {
     let mut shards: Vec<Shard> = vec![];
     let mut fam_table: Vec<J> = vec![];
     let mut total_cases = 0u64;
+    // shards of roughly equal estimated cost: ~6 per worker in quick, ~2 core-seconds each in thorough
+    let est_total_us: u64 = fams.iter().enumerate().map(|(i, f)| f.count() * sp[i].cost).sum();
+    let target_us = match tier {
+        Tier::Quick => (est_total_us / 100).max(200_000),
+        Tier::Thorough => 4_000_000,
+    };
     let only = std::env::var("MC_C20_ONLY").ok();
     if only.is_some() {
         ctx.cap_hit("MC_C20_ONLY is set: only some families were swept (debugging aid, not a verdict)");
@@ -597,13 +644,18 @@ fn parent(tier: Tier) -> i32 {
         let n = f.count();
         total_cases += n;
         fam_table.push(json!({"family": f.name(), "cases": n}));
-        let step = f.shard().max(1);
+        let step = (target_us / sp[i].cost.max(1)).max(1);
         let mut s = 0;
         while s < n {
             let e = (s + step).min(n);
             shards.push(Shard { fam: i, start: s, end: e, cost: (e - s) * sp[i].cost });
             s = e;
         }
+    }
+    if std::env::var("MC_C20_LIST").is_ok() {
+        println!("{}", serde_json::to_string_pretty(&fam_table).unwrap_or_default());
+        let _ = std::fs::remove_dir_all(&dir);
+        return 2;
     }
     shards.sort_by(|a, b| b.cost.cmp(&a.cost));
     if !shards.is_empty() {
